@@ -177,7 +177,7 @@ impl Limits {
         Limits { max_runs: 400, wall_s: 120.0, tl_ms: 1500, max_violations: 2, xcheck_every: 6, deep_first: false }
     }
     pub fn thorough() -> Self {
-        Limits { max_runs: 6000, wall_s: 1500.0, tl_ms: 10000, max_violations: 3, xcheck_every: 4, deep_first: false }
+        Limits { max_runs: 6000, wall_s: 420.0, tl_ms: 5000, max_violations: 3, xcheck_every: 4, deep_first: false }
     }
 }
 
